@@ -33,6 +33,9 @@ type Roles struct {
 	IsClosed    []*ssa.Function
 	SendEvent   []*ssa.Function
 	SendError   []*ssa.Function
+	// SendWrap: helpers that do nothing but hand their own parameters to the send functions (`emit(ev, err)`); for each,
+	// the index of the parameter that is sent as the event / as the error (-1: none)
+	SendWrap    map[*ssa.Function][2]int
 	Locks       []*types.Var
 	Tables      []*types.Var
 	StructOf    map[*types.Var]*types.Named
@@ -135,6 +138,12 @@ func fieldOf(v ssa.Value) *types.Var {
 		case *ssa.Convert:
 			v = x.X
 			continue
+		case *ssa.Call:
+			// a trivial accessor: `func (w *T) stopped() <-chan struct{} { return w.done }`
+			if f := getterField(x.Call.StaticCallee()); f != nil {
+				return f
+			}
+			return nil
 		default:
 			return nil
 		}
@@ -354,7 +363,54 @@ func discoverRoles(p *Program, e *Engine) (*Roles, error) {
 		}
 	}
 	ro.IsClosed = pureTests
+	// send wrappers
+	ro.SendWrap = map[*ssa.Function][2]int{}
+	for _, fn := range p.srcFuncs(p.Main) {
+		if containsFn(ro.SendEvent, fn) || containsFn(ro.SendError, fn) || fn.Blocks == nil || len(naturalLoops(fn)) > 0 {
+			continue
+		}
+		if fn.Signature.Results().Len() != 1 || !isBoolType(fn.Signature.Results().At(0).Type()) {
+			continue
+		}
+		evIdx, erIdx, okW, nCalls := -1, -1, true, 0
+		for _, b := range fn.Blocks {
+			for _, in := range b.Instrs {
+				switch x := in.(type) {
+				case *ssa.Call:
+					cal := x.Call.StaticCallee()
+					if cal == nil || !(containsFn(ro.SendEvent, cal) || containsFn(ro.SendError, cal)) {
+						okW = false
+						continue
+					}
+					nCalls++
+					arg := x.Call.Args[len(x.Call.Args)-1]
+					prm, isP := arg.(*ssa.Parameter)
+					if !isP {
+						okW = false
+						continue
+					}
+					for i, pp := range fn.Params {
+						if pp == prm {
+							if containsFn(ro.SendEvent, cal) {
+								evIdx = i
+							} else {
+								erIdx = i
+							}
+						}
+					}
+				case *ssa.Store, *ssa.MapUpdate, *ssa.Send, *ssa.Select, *ssa.Go, *ssa.Defer:
+					okW = false
+				}
+			}
+		}
+		if okW && nCalls >= 1 {
+			ro.SendWrap[fn] = [2]int{evIdx, erIdx}
+		}
+	}
 	e.NoExpand = map[*ssa.Function]bool{}
+	for f := range ro.SendWrap {
+		e.NoExpand[f] = true
+	}
 	for _, l := range [][]*ssa.Function{ro.SendEvent, ro.SendError, ro.IsClosed, ro.CloseFns} {
 		for _, f := range l {
 			e.NoExpand[f] = true
@@ -409,9 +465,91 @@ func (ro *Roles) noteSend(fn *ssa.Function, ch ssa.Value, evSet, erSet map[*type
 	return false
 }
 
-func (ro *Roles) isSendEvent(f *ssa.Function) bool { return containsFn(ro.SendEvent, f) }
-func (ro *Roles) isSendError(f *ssa.Function) bool { return containsFn(ro.SendError, f) }
-func (ro *Roles) isIsClosed(f *ssa.Function) bool  { return containsFn(ro.IsClosed, f) }
+// getterField: fn is a one-block method that returns a field of its receiver (possibly converted); that field.
+func getterField(fn *ssa.Function) *types.Var {
+	if fn == nil || len(fn.Blocks) != 1 || fn.Signature.Recv() == nil || len(fn.Params) != 1 {
+		return nil
+	}
+	b := fn.Blocks[0]
+	r, ok := b.Instrs[len(b.Instrs)-1].(*ssa.Return)
+	if !ok || len(r.Results) != 1 {
+		return nil
+	}
+	for _, in := range b.Instrs {
+		switch in.(type) {
+		case *ssa.FieldAddr, *ssa.UnOp, *ssa.ChangeType, *ssa.Convert, *ssa.Return, *ssa.DebugRef, *ssa.Field:
+		default:
+			return nil
+		}
+	}
+	v := r.Results[0]
+	for i := 0; i < 6; i++ {
+		switch x := v.(type) {
+		case *ssa.ChangeType:
+			v = x.X
+		case *ssa.Convert:
+			v = x.X
+		case *ssa.UnOp:
+			v = x.X
+		case *ssa.FieldAddr:
+			if x.X != ssa.Value(fn.Params[0]) {
+				// through an embedded struct: w.shared.done
+				if fa2, ok := x.X.(*ssa.FieldAddr); !ok || fa2.X != ssa.Value(fn.Params[0]) {
+					if ld, ok := x.X.(*ssa.UnOp); !ok || ld.X == nil {
+						return nil
+					}
+				}
+			}
+			st := deref(x.X.Type()).Underlying().(*types.Struct)
+			return st.Field(x.Field)
+		default:
+			return nil
+		}
+	}
+	return nil
+}
+
+func (ro *Roles) isSendEvent(f *ssa.Function) bool {
+	if w, ok := ro.SendWrap[f]; ok && w[0] >= 0 {
+		return true
+	}
+	return containsFn(ro.SendEvent, f)
+}
+func (ro *Roles) isSendError(f *ssa.Function) bool {
+	if w, ok := ro.SendWrap[f]; ok && w[1] >= 0 {
+		return true
+	}
+	return containsFn(ro.SendError, f)
+}
+
+// eventArg / errorArg: the argument of a call of a send function (or send wrapper) that is sent as the event / the error.
+func (ro *Roles) eventArg(call *ssa.Call) ssa.Value {
+	cal := call.Call.StaticCallee()
+	if w, ok := ro.SendWrap[cal]; ok {
+		if w[0] >= 0 && w[0] < len(call.Call.Args) {
+			return call.Call.Args[w[0]]
+		}
+		return nil
+	}
+	if containsFn(ro.SendEvent, cal) {
+		return call.Call.Args[len(call.Call.Args)-1]
+	}
+	return nil
+}
+func (ro *Roles) errorArg(call *ssa.Call) ssa.Value {
+	cal := call.Call.StaticCallee()
+	if w, ok := ro.SendWrap[cal]; ok {
+		if w[1] >= 0 && w[1] < len(call.Call.Args) {
+			return call.Call.Args[w[1]]
+		}
+		return nil
+	}
+	if containsFn(ro.SendError, cal) {
+		return call.Call.Args[len(call.Call.Args)-1]
+	}
+	return nil
+}
+func (ro *Roles) isIsClosed(f *ssa.Function) bool { return containsFn(ro.IsClosed, f) }
 
 // closedLit: is l a test of "the done channel is closed"? Either a call of an isClosed function, or the inlined form:
 // the case index of a non-blocking select whose only case receives from done. saysClosed: the literal holds iff closed.
